@@ -95,6 +95,93 @@ let () =
         z_of_int ((base + (k - Array.length chosen) + 1) land 255)
       end in
     match tokens line with
+    | "disp" :: ops ->
+      (* the three-automaton system behind Dispatcher.HandleFrame (Disp.v):
+         A<L|I|V><U|O|D|C>  administrative call on one automaton
+         F<phase>.<proto hex>.<code>.<id|c|s>.<cls>.<data hex|->.<declared length|a>.<extra hex|->
+         S<phase>.<proto hex>.<raw payload hex|->
+         per op:  <lcp state>/<ipcp state>/<ipv6cp state>:<events>:<error>                                  *)
+      (try
+        let c = default_cfg and v = { fix_cells = true; fix_ncp = true } in
+        (* Identifier choices per automaton, from the implementation's line *)
+        let chosen_of tag =
+          List.concat_map (fun tok ->
+            match String.split_on_char ':' tok with
+            | [_; acts; _] ->
+              filter_map (fun a -> match String.split_on_char '.' a with
+                | t :: ("scr" | "str" | "scj") :: id :: _ when t = tag ->
+                  (try Some (int_of_string id land 255) with _ -> None)
+                | _ -> None) (String.split_on_char ',' acts)
+            | _ -> []) itoks |> Array.of_list in
+        let pick_of tag =
+          let ch = chosen_of tag in
+          fun (k : nat) ->
+            let k = int_of_nat k in
+            if k < Array.length ch then z_of_int ch.(k)
+            else z_of_int (((if Array.length ch = 0 then 0 else ch.(Array.length ch - 1)) + (k - Array.length ch) + 1) land 255) in
+        let s = ref (sys_init (pick_of "L") (pick_of "I") (pick_of "V")) in
+        let phase_of = function 0 -> PhDead | 1 -> PhEstablish | 2 -> PhAuthenticate | 3 -> PhNetwork | 4 -> PhOpen
+                              | 5 -> PhTerminate | 6 -> PhLACTunnelPending | _ -> PhLACTunneled in
+        let tag_of = function TLcp -> "L" | TIpcp -> "I" | TIp6 -> "V" | TNone -> "" in
+        let get t (s : sys) = match t with TLcp -> s.s_lcp | TIpcp -> s.s_ipcp | _ -> s.s_ip6 in
+        let kindn_of = function TLcp -> 1 | TIpcp -> 2 | _ -> 3 in
+        let events_of t edata =
+          if t = TNone then [] else
+          let f = get t !s in
+          List.map (fun a -> tag_of t ^ "." ^ a)
+            (filter_map (show_act false (z_of_int (kindn_of t)) f.hlog edata) (outs f)) in
+        let zhex l = hex_of_zbytes l in
+        let outl = List.map (fun op ->
+          let (evs, err) =
+            if String.length op = 3 && op.[0] = 'A' then begin
+              let t = match op.[1] with 'L' -> TLcp | 'I' -> TIpcp | 'V' -> TIp6 | _ -> failwith "target" in
+              let e = match op.[2] with 'U' -> EUp | 'O' -> EOpen | 'D' -> EDown | 'C' -> EClose | _ -> failwith "admin" in
+              s := admin c v t e !s;
+              (events_of t [], "-")
+            end else begin
+              let p = String.split_on_char '.' (String.sub op 1 (String.length op - 1)) in
+              let ph = phase_of (int_of_string (List.nth p 0)) in
+              let proto = int_of_string ("0x" ^ List.nth p 1) in
+              let (payload, k) =
+                if op.[0] = 'S' then ((if List.nth p 2 = "-" then [] else zbytes_of_hex (List.nth p 2)), CGood)
+                else begin
+                  let code = int_of_string (List.nth p 2) in
+                  let tgt = if proto = 0xc021 then Some TLcp else if proto = 0x8021 then Some TIpcp
+                            else if proto = 0x8057 then Some TIp6 else None in
+                  let last = match tgt with Some t -> int_of_z (get t !s).lastReq | None -> 0 in
+                  let id = match List.nth p 3 with "c" -> last | "s" -> (last + 1) land 255 | x -> int_of_string x land 255 in
+                  let data = if List.nth p 5 = "-" then [] else zbytes_of_hex (List.nth p 5) in
+                  let extra = if List.nth p 7 = "-" then [] else zbytes_of_hex (List.nth p 7) in
+                  let dl = if List.nth p 6 = "a" then 4 + List.length data else int_of_string (List.nth p 6) in
+                  (List.map z_of_int [code; id; (dl lsr 8) land 255; dl land 255] @ data @ extra, cls_of (List.nth p 4))
+                end in
+              (match payload with
+               | c0 :: _ :: a :: b :: rest when int_of_z c0 = 1 ->
+                 let dl = int_of_z a * 256 + int_of_z b in
+                 if dl >= 4 && dl <= List.length payload && ((parse_opts (take (dl - 4) rest) = None) <> (k = CMalformed))
+                 then failwith "cls/data"
+               | _ -> ());
+              let r = handle_frame c v ph (z_of_int proto) payload k !s in
+              s := r.d_sys;
+              let fdata = match payload with _ :: _ :: _ :: _ :: rest -> rest | _ -> [] in
+              (* the data the automaton saw: cut by the declared length *)
+              let dl = match payload with _ :: _ :: a :: b :: _ -> int_of_z a * 256 + int_of_z b | _ -> 4 in
+              let edata = take (dl - 4) fdata in
+              let host = List.map (function
+                | HPap (cd, i, d) -> Printf.sprintf "pap.%d.%d.%s" (int_of_z cd) (int_of_z i) (zhex d)
+                | HChap (cd, i, d) -> Printf.sprintf "chap.%d.%d.%s" (int_of_z cd) (int_of_z i) (zhex d)
+                | HEchoReq (i, d) -> Printf.sprintf "echoreq.%d.%s" (int_of_z i) (zhex d)
+                | HEchoRep (i, d) -> Printf.sprintf "echorep.%d.%s" (int_of_z i) (zhex d)
+                | HProtoRej pr -> Printf.sprintf "protorej.%04x" (int_of_z pr)
+                | HSendProtoRej (pr, pl) -> Printf.sprintf "sendprotorej.%04x.%s" (int_of_z pr) (zhex pl)
+                | HIPv6 pl -> "ipv6." ^ zhex pl) r.d_host in
+              (events_of r.d_target edata @ host,
+               match r.d_err with None -> "-" | Some ErrFrameShort -> "short" | Some ErrFrameLengthMismatch -> "len")
+            end in
+          Printf.sprintf "%d/%d/%d:%s:%s" (int_of_z (st_num (!s).s_lcp.st0)) (int_of_z (st_num (!s).s_ipcp.st0))
+            (int_of_z (st_num (!s).s_ip6.st0)) (if evs = [] then "-" else String.concat "," evs) err) ops in
+        print_endline (if outl = [] then "empty" else String.concat " " outl)
+      with Failure m -> print_endline ("badcase " ^ m) | Not_found -> print_endline "badcase nth")
     | kind0 :: mc :: mt :: ops ->
       (try
         let conc = (kind0 = "conc") in
